@@ -271,6 +271,9 @@ def framing_rules(F, R):
     e7_containers.flex_validator(F, R)
     e5_formulas.size_formula_rules(F, R)
     e7_containers.flex_size(F, R)
+    # the gates compare against MIN_SIZE / DATA_MIN_SIZES and the views against the layout constants: they must be the real ones
+    e1_layout.layout_rules(F, R)
+    e5_formulas.base_formula_rules(F, R)
 
 
 def c08(F, R):
